@@ -47,6 +47,8 @@ fn main() {
         "urgency" => scen::urgency::main(&args),
         "fault" => scen::fault::main(&args),
         "sched" => scen::sched::main(&args),
+        "crash" => scen::crash::main(&args),
+        "crashchild" => scen::crash::child(&args),
         _ => {
             eprintln!("usage: tcs-harness <hist|…> --out FILE [--seed N] …");
             2
